@@ -1,57 +1,51 @@
 (* C03, containers: the decoder model refines the reference grammar.
 
-   Whenever the reference parser reads an abstract value hv from the front of a byte string - in
-   ANY of the forms the grammar allows: compact or full-width numbers, any chunking of strings and
-   byte arrays, the six list forms, typed or untyped maps, type names literal or by back-reference,
-   instances in short or long form, class definitions in front of the instance or of any list, map
-   or object that encloses it - and hv has a meaning d under `sv` (Proofs/DecRefines.v: what
-   ReadData / readField / ReadList / readMap / readObject make of an abstract value, stated on
-   abstract values, type environment, type map and reference table only), the decoder model reads
-   exactly d from those bytes, consumes exactly the bytes the parser consumed, and ends with the
-   parser's tables.  So every rendering of a value decodes like every other, the encoder's own
-   included (C03_renderings_decode_alike).
+   Whenever the reference parser `hparse` reads an abstract value hv from the front of a byte
+   string - in ANY of the forms the grammar allows: compact or full-width numbers, any chunking of
+   strings and byte arrays, the six list forms, typed or untyped maps, type names literal or by
+   back-reference, instances in short or long form, class definitions in front of any value
+   before first use - and hv has a meaning d under `sv` (Proofs/DecRefines.v: what ReadData /
+   readField / ReadList / readMap / readObject make of an abstract value, stated on abstract
+   values, type environment, type map and reference table only), the decoder model reads exactly
+   d from those bytes, consumes exactly the bytes the parser consumed, and ends with the parser's
+   tables.  So every rendering of a value decodes like every other, the encoder's own included
+   (C03_renderings_decode_alike).
 
-   `rparse` is the reference parser with class definitions allowed in front of lists, maps,
-   objects and other definitions only (what it accepts `hparse` accepts, with the same result:
-   C03_restricted_grammar_is_grammar); a definition directly in front of the value of a field of
-   scalar Go type is not skipped by readField and is outside the theorem.  Timestamps are not in
-   `sv` (compact form: known finding C03-F1; millisecond form: C03_date_ms_form). *)
+   Timestamps are not in `sv` (compact form: known finding C03-F1; millisecond form:
+   C03_date_ms_form). *)
 From Coq Require Import ZArith List Lia String Ascii.
-From GH Require Import Base.GoSem Base.Result Base.Utf8 Gen.GoLeaf Model.Scalars Model.Strings Spec.Grammar Spec.GrammarR
+From GH Require Import Base.GoSem Base.Result Base.Utf8 Gen.GoLeaf Model.Scalars Model.Strings Spec.Grammar
   Model.Encoder Model.Decoder Proofs.DecRefines.
 Import ListNotations.
 Open Scope Z_scope.
 
 Theorem C03_decoder_refines_grammar : forall te tm bs hv rest st' d h',
-  rparse pstate0 bs = Ok (hv, rest, st') -> bytes_ok bs -> sv te tm hv [] d h' ->
+  hparse pstate0 bs = Ok (hv, rest, st') -> bytes_ok bs -> sv te tm hv [] d h' ->
   decode te tm bs = Ok (d, rest, dst_of st' h').
 Proof. exact decoder_refines_grammar. Qed.
 Print Assumptions C03_decoder_refines_grammar.
 
 (* in the middle of a stream: any tables (types, classes, references) the two sides share *)
 Theorem C03_refines_from_any_state : forall te tm f0 f st bs hv rest st' h d h',
-  rparse_v f0 f st bs = Ok (hv, rest, st') -> bytes_ok bs -> sv te tm hv h d h' ->
+  hparse_v f0 f st bs = Ok (hv, rest, st') -> bytes_ok bs -> sv te tm hv h d h' ->
   forall g, (2 * f <= g)%nat -> R_rd (readers_at te tm g) (dst_of st h) bs = Ok (d, rest, dst_of st' h').
 Proof. exact refines_from_any_state. Qed.
 Print Assumptions C03_refines_from_any_state.
 
 (* at a struct field of Go type t *)
 Theorem C03_field_refines_from_any_state : forall te tm f0 f st bs hv rest st' t h d h',
-  rparse_v f0 f st bs = Ok (hv, rest, st') -> bytes_ok bs -> sf te tm t hv h d h' ->
+  hparse_v f0 f st bs = Ok (hv, rest, st') -> bytes_ok bs -> sf te tm t hv h d h' ->
   forall g, (2 * f <= g)%nat -> R_rf (readers_at te tm g) t (dst_of st h) bs = Ok (d, rest, dst_of st' h').
 Proof. exact field_refines_from_any_state. Qed.
 Print Assumptions C03_field_refines_from_any_state.
 
 Theorem C03_renderings_decode_alike : forall te tm bs1 bs2 hv st1 st2 d h',
-  rparse pstate0 bs1 = Ok (hv, [], st1) -> rparse pstate0 bs2 = Ok (hv, [], st2) ->
+  hparse pstate0 bs1 = Ok (hv, [], st1) -> hparse pstate0 bs2 = Ok (hv, [], st2) ->
   bytes_ok bs1 -> bytes_ok bs2 -> sv te tm hv [] d h' ->
   decode te tm bs1 = Ok (d, [], dst_of st1 h') /\ decode te tm bs2 = Ok (d, [], dst_of st2 h').
 Proof. exact renderings_decode_alike. Qed.
 Print Assumptions C03_renderings_decode_alike.
 
-Theorem C03_restricted_grammar_is_grammar : forall st bs x, rparse st bs = Ok x -> hparse st bs = Ok x.
-Proof. exact rparse_hparse. Qed.
-Print Assumptions C03_restricted_grammar_is_grammar.
 
 (* ---- non-vacuity: two renderings of  [ &P{Name:"ab", Age:300, Tags:["x"], Next:nil}, []string{"y"} ]  ----
    A: x7a (fixed untyped list of 2); the class definition inside, in front of the instance; x60;
@@ -67,6 +61,11 @@ Definition bsA : bytes := [122] ++ defP ++ [96] ++ [2; 97; 98] ++ [201; 44] ++ (
 Definition bsB : bytes := defP ++ [87] ++ [79; 144] ++ [82;0;1;97; 83;0;1;98] ++ [73;0;0;1;44]
                           ++ ([85] ++ [83;0;7] ++ cps "[string" ++ [83;0;1;120] ++ [90]) ++ [78]
                           ++ ([86] ++ sstr "[string" ++ [145] ++ [1; 121]) ++ [90].
+(* C: as A, with a class definition directly in front of the string and the integer field value
+   (value ::= class-def value holds at every value position) *)
+Definition defU : bytes := [67] ++ sstr "U" ++ [144].
+Definition bsC : bytes := [122] ++ defP ++ [96] ++ defU ++ [2; 97; 98] ++ defU ++ defU ++ [201; 44] ++ ([113] ++ sstr "[string" ++ [1; 120]) ++ [78]
+                          ++ [113; 144; 1; 121].
 Definition teP : tenv := [(cps "P", [(cps "Name", TStr); (cps "Age", TInt KInt32); (cps "Tags", TSlice TStr); (cps "Next", TPtr (TStruct (cps "P")))])].
 Definition tmP : typmap := [(cps "P", TStruct (cps "P")); (cps "[string", TSlice TStr)].
 Definition hvP : hval :=
@@ -107,17 +106,22 @@ Proof.
     eapply sv_list, slist_typed; [reflexivity|]. eapply sn_cons; [apply sv_string|reflexivity|apply sn_nil].
   - vm_compute; reflexivity.
 Qed.
-Example C03_refines_nonvacuous : exists stA stB,
-  rparse pstate0 bsA = Ok (hvP, [], stA) /\ rparse pstate0 bsB = Ok (hvP, [], stB) /\ bsA <> bsB /\
-  sv teP tmP hvP [] dP hP /\
-  decode teP tmP bsA = Ok (dP, [], dst_of stA hP) /\ decode teP tmP bsB = Ok (dP, [], dst_of stB hP).
+Example C03_refines_nonvacuous : exists stA stB stC,
+  hparse pstate0 bsA = Ok (hvP, [], stA) /\ hparse pstate0 bsB = Ok (hvP, [], stB) /\ hparse pstate0 bsC = Ok (hvP, [], stC) /\
+  bsA <> bsB /\ sv teP tmP hvP [] dP hP /\
+  decode teP tmP bsA = Ok (dP, [], dst_of stA hP) /\ decode teP tmP bsB = Ok (dP, [], dst_of stB hP) /\
+  decode teP tmP bsC = Ok (dP, [], dst_of stC hP).
 Proof.
   destruct C03_example_meaning as (d & h' & S & -> & ->).
-  eexists; eexists.
-  split; [vm_compute; reflexivity|]. split; [vm_compute; reflexivity|]. split; [vm_compute; discriminate|].
+  eexists; eexists; eexists.
+  split; [vm_compute; reflexivity|]. split; [vm_compute; reflexivity|]. split; [vm_compute; reflexivity|]. split; [vm_compute; discriminate|].
   split; [exact S|].
-  apply (C03_renderings_decode_alike teP tmP bsA bsB hvP); try (vm_compute; reflexivity); try (apply bytes_okb_ok; vm_compute; reflexivity).
-  exact S.
+  assert (AB := C03_renderings_decode_alike teP tmP bsA bsB hvP).
+  assert (AC := C03_renderings_decode_alike teP tmP bsA bsC hvP).
+  split; [|split].
+  - eapply AB; try (vm_compute; reflexivity); try (apply bytes_okb_ok; vm_compute; reflexivity). exact S.
+  - eapply AB; try (vm_compute; reflexivity); try (apply bytes_okb_ok; vm_compute; reflexivity). exact S.
+  - eapply AC; try (vm_compute; reflexivity); try (apply bytes_okb_ok; vm_compute; reflexivity). exact S.
 Qed.
 
 (* the specification's own example  x57 x90 x91 'Z'  (a variable-length untyped list [0, 1]) *)
